@@ -36,6 +36,13 @@ CKPT = 'ranking_checkpoint_tmp.tsv'
 MI_HEURISTICS = {'MI', 'MI-numba-randomized', 'MI-numba-3mr', 'max-value-coverage', 'correlation-Pearson', 'AMI', 'Constant'}
 
 
+import time as _time_mod
+import types as _types
+
+# the real functions, captured before any simulated process patches the module
+_REAL_TIME_FUNCS = _types.SimpleNamespace(**{k: getattr(_time_mod, k) for k in dir(_time_mod) if not k.startswith('__')})
+
+
 class _SimTime:
     def __init__(self, sim):
         self._sim = sim
@@ -63,8 +70,7 @@ class _SimTime:
     perf_counter = monotonic
 
     def __getattr__(self, name):
-        import time as _t
-        return getattr(_t, name)
+        return getattr(_REAL_TIME_FUNCS, name)
 
 
 class _ShortSleep:
@@ -158,23 +164,30 @@ class Monitors:
         orig_pcs = cr.prior_combinations_sample
         orig_eim = cr.estimate_importances_minibatches
 
-        def compute_batch_ranking(line_tmp_storage, *a, **kw):
-            m.on_batch_entry(line_tmp_storage)
-            out = orig_cbr(line_tmp_storage, *a, **kw)
+        # the wrappers are signature-transparent (*a, **kw): a refactoring that adds a parameter to one of the
+        # monitored functions must not look like a defect of the code under test
+        def _arg(a, kw, pos, name):
+            return a[pos] if len(a) > pos else kw.get(name)
+
+        def compute_batch_ranking(*a, **kw):
+            m.on_batch_entry(_arg(a, kw, 0, 'line_tmp_storage'))
+            out = orig_cbr(*a, **kw)
             m.on_batch_return(out)
             return out
 
-        def mixed_rank_graph(input_dataframe, args, cpu_pool, pbar):
+        def mixed_rank_graph(*a, **kw):
+            input_dataframe = _arg(a, kw, 0, 'input_dataframe')
+            args = _arg(a, kw, 1, 'args')
             frame = {c: input_dataframe[c].tolist() for c in input_dataframe.columns} if (m.oracles & {'C05', 'C06'}) else None
             cols = list(input_dataframe.columns)
-            out = orig_mrg(input_dataframe, args, cpu_pool, pbar)
+            out = orig_mrg(*a, **kw)
             m.on_graph(cols, frame, args, out)
             return out
 
-        def prior_combinations_sample(combinations, args):
-            cand = list(combinations)
-            cap = args.combination_number_upper_bound
-            out = orig_pcs(combinations, args)
+        def prior_combinations_sample(*a, **kw):
+            cand = list(_arg(a, kw, 0, 'combinations'))
+            cap = _arg(a, kw, 1, 'args').combination_number_upper_bound
+            out = orig_pcs(*a, **kw)
             m.on_sampler(cand, cap, list(out))
             return out
 
@@ -566,7 +579,15 @@ class Monitors:
         got = {}
         for r in body:
             if len(r) >= 3:
-                got[(r[0], r[1])] = int(r[2])
+                try:
+                    c = int(r[2])
+                except ValueError:
+                    self.violate('C13', 'rare-report-malformed', {'row': r, 'threshold': thr})
+                    return
+                if (r[0], r[1]) in got:
+                    self.violate('C13', 'rare-report-duplicate-row', {'row': r, 'threshold': thr})
+                    return
+                got[(r[0], r[1])] = c
         if got != exp:
             diff = sorted(set(got.items()) ^ set(exp.items()), key=repr)[:6]
             self.violate('C13', 'rare-report', {'threshold': thr, 'difference': diff, 'written': len(got), 'exact': len(exp)})
@@ -675,9 +696,16 @@ def simulated_process(spec, phase, root):
         # stub-fidelity run (DESIGN 4.5): the real pathos pool with real forked workers; only the polling sleep is shortened
         core_ranking.time = _ShortSleep(sim)
     else:
-        core_ranking.time = _SimTime(sim)
+        st = _SimTime(sim)
+        core_ranking.time = st
         core_ranking.timer = lambda: sim.now
         task_ranking.Pool = pool_factory
+        # every clock the simulated process can read is the simulator's: also for code that imports `time` itself
+        import time as _real_time
+        _real_time.sleep = st.sleep
+        _real_time.time = st.time
+        _real_time.monotonic = st.monotonic
+        _real_time.perf_counter = st.monotonic
     fs.install()
     argv = build_argv(cli, os.path.join(root, 'data'))
     old_argv = sys.argv
